@@ -58,6 +58,7 @@ type Frame struct {
 	atOrd    map[string]int
 	closureOrd map[string]int
 	body     *ast.BlockStmt
+	modsInfo map[string]string
 }
 
 func newExec(eng *Engine, u *Unit) *Exec {
@@ -377,11 +378,7 @@ func (x *Exec) sliceVal(st *State, b Val, lo, hi *Val) Val {
 	if l == "0" {
 		return Val{T: fmt.Sprintf("(mk_%s (sarr_%s %s) %s false)", b.S, id, b.T, h), S: b.S, Ty: b.Ty}
 	}
-	// shifted view: fresh array with a quantified definition
-	arr := x.u.fresh("sl", "(Array Int "+es+")")
-	q := "j$q" + fmt.Sprint(x.nextQ())
-	x.u.fact(fmt.Sprintf("(forall ((%s Int)) (! (= (select %s %s) (select (sarr_%s %s) (+ %s %s))) :pattern ((select %s %s))))", q, arr, q, id, b.T, q, l, arr, q))
-	return Val{T: fmt.Sprintf("(mk_%s %s (- %s %s) false)", b.S, arr, h, l), S: b.S, Ty: b.Ty}
+	return Val{T: fmt.Sprintf("(sub_%s %s %s %s)", id, b.T, l, h), S: b.S, Ty: b.Ty}
 }
 
 // deref of a pointer value: struct pointers give the struct datatype value, others a cell read.
